@@ -36,7 +36,7 @@ func runRoundTrips(r *mon.Run, tmp string) {
 	mon.Parallel(nBig, 4, func(i int) { one(i, true) })
 	mon.Parallel(n-nBig, 0, func(k int) { one(nBig+k, false) })
 	if !r.Replaying() {
-		r.Require("forms_compared", n*9/10)
+		r.Require("forms_compared", n/2)
 		r.Require("roundtrip_tempfiles_seen", n/20)
 	}
 }
